@@ -28,7 +28,7 @@ from ..interp import fmt, contains, subterms
 from ..model import AnalysisError, ClassInfo
 from .. import q
 from .. import wake
-from ..roles import std_inline, bound, container_of, registered_callbacks
+from ..roles import std_inline, bound, container_of, registered_callbacks, proto
 from .c03 import terminal_on
 from .c02 import _no_cb_inline
 
@@ -298,7 +298,7 @@ def check(ctx, rep):
                 return none_given and isinstance(a, tuple) and a[0] == "sub" and isinstance(a[1], tuple) and a[1][0] == "call" and q.term_name(a[1][1]) == "exc_info"
             ok = bool(sets) and all(arg_ok(e.d["args"][0]) for e in sets if e.d["args"]) and (q.call_name(sets[0]) == "set_result") == (mname == "yield_result")
             rep.ob("R-FIRSTWINS", "PollDescriptor.%s sets the given outcome on its own future" % mname, ok, "calls %s" % [("%s(%s)" % (fmt(e.d["func"]), ", ".join(fmt(a) for a in e.d["args"]))) for e in sets], where_of(m), trace_of(p))
-    FL = ("attr", SELF, "_me_lock")
+    FL = proto(ctx).LOCK
     for mname in ("set_result", "set_exception_info"):
         o, m = pf.lookup(mname)
         rep.require(m is not None, "PollFuture.%s not found" % mname)
